@@ -54,7 +54,8 @@ def gen_filter(rng, cls, names, quad=False, bases=()):
                                   {"ScaleX": 120, "ScaleY": 70, "OffsetX": -10, "Origin": 2}])
     elif cls == "CubicToQuadraticFilter":
         d["kwargs"] = rng.choice([{}, {"reverseDirection": False}, {"allQuadratic": False},
-                                  {"conversionError": 0.002}])
+                                  {"conversionError": 0.002}, {"rememberCurveType": True},
+                                  {"rememberCurveType": True, "reverseDirection": False}])
     elif cls == "RemoveOverlapsFilter":
         d["kwargs"] = {"backend": "pathops" if quad or rng.random() < 0.5 else "booleanOperations"}
     elif cls == "DottedCircleFilter":
@@ -209,7 +210,7 @@ def gen_scenario(seed, profile=None):
                            for _ in range(rng.randint(0, 2))]}
         else:
             st = {"op": "filter_call", "f": fi, "world": wi, "font": rng.randrange(info["n_fonts"]),
-                  "glyphset": rng.choice(["copy", "copy", "copy", "none"])}
+                  "glyphset": rng.choice(["copy", "copy", "copy", "none", "dict"])}
             if info["layers"] and rng.random() < 0.15:
                 st["layer"] = rng.choice(info["layers"])
         if rng.random() < profile.get("p_fault", 0.15):
@@ -289,6 +290,10 @@ def _do_filter_call(filt, w, st, fault=None):
         layer = None
     if st["glyphset"] == "copy":
         gs = _GlyphSet.from_layer(font, layer, copy=True)
+        args = (font, gs)
+    elif st["glyphset"] == "dict":
+        # a plain mapping of glyph copies: no 'lib', no 'name' attribute
+        gs = dict(_GlyphSet.from_layer(font, layer, copy=True))
         args = (font, gs)
     else:
         gs = None
